@@ -1,5 +1,294 @@
 import Ecal.Drivers.Util
+import Ecal.Model.Cascade
+/-!
+Driver of C02 (payload format: see `go/cmd/harness/c02.go`).
+
+* `driver C02`        : for every cascade plan of the case, executes the plan on the transition
+  system `Ecal.Cascade.step` (sequential schedule on worker 0 — by the theorems of `Props.C02`
+  the observables do not depend on the schedule) and prints the expected canonical result.
+* `driver C02 replay` : payload = `<plan> ~ <trace> ; <trace> …`; maps the recorded trace tokens of
+  every cascade to events of the transition system and replays them with `step`, checking the
+  recorded counter values. Result: `ok <number of events>` or `reject <cascade> <position> <token> <why>`.
+-/
 namespace Ecal.Drv.C02
-/-- model driver of property C02 (stub: not implemented yet) -/
-def run (_args : List String) : IO Unit := Ecal.Drv.lineLoop fun _ => "unimplemented"
+open Ecal.Drv Ecal.Cascade
+
+structure Node where
+  parent : Option Nat
+  prule  : Nat
+  kind   : Char
+  rules  : List Bool
+  deriving Repr
+
+structure Casc where
+  wait  : Bool
+  nodes : Array Node
+
+structure Plan where
+  workers   : Nat
+  failFirst : Bool
+  ecal      : Bool
+  cascs     : List Casc
+
+def parseNode (s : String) : Option Node :=
+  match s.splitOn "." with
+  | [p, r, k, rs] =>
+    let kind := k.toList.headD 't'
+    let rules := if rs = "-" then [] else rs.toList.map (· == 'o')
+    if p = "-" then some { parent := none, prule := 0, kind, rules }
+    else do
+      let p ← p.toNat?
+      let r ← r.toNat?
+      some { parent := some p, prule := r, kind, rules }
+  | _ => none
+
+def parseCasc (s : String) : Option Casc :=
+  match s.splitOn "=" with
+  | [m, ns] => do
+    let nodes ← (ns.splitOn "/").mapM parseNode
+    some { wait := m = "w", nodes := nodes.toArray }
+  | _ => none
+
+def parsePlan (s : String) : Option Plan :=
+  match s.splitOn " " with
+  | hdr :: cs => do
+    let mut workers := 1
+    let mut ff := false
+    let mut ecal := false
+    for h in hdr.splitOn "," do
+      let v := ((h.drop 1).toString.toNat?).getD 0
+      if h.startsWith "W" then workers := v
+      if h.startsWith "F" then ff := v == 1
+      if h.startsWith "M" then ecal := v == 1
+    let cascs ← cs.mapM parseCasc
+    some { workers, failFirst := ff, ecal, cascs }
+  | _ => none
+
+def childrenOf (c : Casc) (n k : Nat) : List Nat :=
+  (List.range c.nodes.size).filter fun i =>
+    match c.nodes[i]? with
+    | some nd => nd.parent == some n && nd.prule == k
+    | none => false
+
+/-- the `addEvent` event of plan node `n` for monitor `m` -/
+def addEv (c : Casc) (m n : Nat) : Event :=
+  match c.nodes[n]? with
+  | some nd =>
+    if nd.kind == 't' then .addEvent m true (List.range nd.rules.length)
+    else if nd.kind == 'z' then .addEvent m true []
+    else .addEvent m false []
+  | none => .addEvent m false []
+
+def steps (s : State) (es : List Event) : Option State := run s es
+
+/-- execute the rules of monitor `m` (plan node `n`): children of a rule are created and added
+    while the rule's action executes -/
+def ruleLoop (c : Casc) (n m : Nat) : Nat → State → Array Nat → List Nat → Option (State × Array Nat × List Nat)
+  | 0, s, nodeOf, kids => some (s, nodeOf, kids)
+  | fuel + 1, s, nodeOf, kids =>
+    match s.mons[m]? with
+    | some mon =>
+      match mon.todo with
+      | [] => some (s, nodeOf, kids)
+      | k :: _ => do
+        let mut s := s
+        let mut nodeOf := nodeOf
+        let mut kids := kids
+        for ch in childrenOf c n k do
+          let cid := s.mons.length
+          s ← step s (.newChild m)
+          s ← step s (addEv c cid ch)
+          nodeOf := nodeOf.push ch
+          match s.mons[cid]? with
+          | some cm => if cm.phase == .queued then kids := kids ++ [cid]
+          | none => pure ()
+        let ok := match c.nodes[n]? with
+          | some nd => nd.rules.getD k true
+          | none => true
+        s ← step s (.ruleReturns m ok)
+        ruleLoop c n m fuel s nodeOf kids
+    | none => none
+
+def taskLoop (c : Casc) : Nat → List Nat → State → Array Nat → Option (State × Array Nat)
+  | 0, _, s, nodeOf => some (s, nodeOf)
+  | _, [], s, nodeOf => some (s, nodeOf)
+  | fuel + 1, m :: rest, s, nodeOf => do
+    let n := nodeOf.getD m 0
+    let s ← step s (.pop 0 m)
+    let (s, nodeOf, kids) ← ruleLoop c n m 64 s nodeOf []
+    let s ← step s (.taskDone m)
+    let failing : Bool := match s.mons[m]? with
+      | some mon => mon.phase != .done
+      | none => false
+    let s ← if failing then steps s [.setErrors m, .allErrors, .errFinish m, .allErrors, .notified m] else some s
+    taskLoop c fuel (rest ++ kids) s nodeOf
+
+def repeatStep (e : Event) : Nat → State → State
+  | 0, s => s
+  | n + 1, s => match step s e with
+    | some s' => repeatStep e n s'
+    | none => s
+
+def insertSorted (x : Nat × Nat) : List (Nat × Nat) → List (Nat × Nat)
+  | [] => [x]
+  | y :: ys => if x.1 < y.1 || (x.1 == y.1 && x.2 ≤ y.2) then x :: y :: ys else y :: insertSorted x ys
+
+def sortPairs (l : List (Nat × Nat)) : List (Nat × Nat) := l.foldr insertSorted []
+
+/-- run the plan of one cascade to its end; result line of the cascade -/
+def expected (p : Plan) (c : Casc) : String :=
+  let r : Option (State × Array Nat) := do
+    let s := init p.workers p.failFirst
+    let s ← if c.wait then step s .register else some s
+    let s ← step s (addEv c 0 0)
+    let work := match s.mons[0]? with
+      | some r => if r.phase == .queued then [0] else []
+      | none => []
+    let (s, nodeOf) ← taskLoop c 100000 work s #[0]
+    let s := repeatStep .post 2 s
+    let s := repeatStep (.observerRuns .queue) 1000 s
+    let s := repeatStep (.observerRuns .handler) 2 s
+    let s := repeatStep (.observerRuns .wait) 2 s
+    let s := repeatStep .waitReturns 1 s
+    some (s, nodeOf)
+  match r with
+  | none => "model-stuck"
+  | some (s, nodeOf) =>
+    let rootTrig := match s.mons[0]? with
+      | some r => !r.skipped
+      | none => false
+    let returned := if c.wait then s.waitReturned else (s.handlerCalls ≥ 1 || !rootTrig)
+    if !returned || s.panicked then "ret=0"
+    else
+      let handed := s.mons.filter fun m => m.phase != .fresh
+      let fin := handed.filter fun m => m.phase.finished
+      let pending := s.mons.filter fun m => !m.todo.isEmpty
+      let errs := (allErrors s).flatMap fun (i, e) =>
+        match e with
+        | some rs => rs.map fun r => (nodeOf.getD i 9999, r)
+        | none => [(9999, 9999)]
+      let errs := sortPairs errs
+      let es := if errs.isEmpty then "-" else ",".intercalate (errs.map fun (n, k) => s!"{n}.{k}e")
+      -- through ECAL sinks the root monitor is created inside the builtin: handler and monitors are not observable
+      let hf := if p.ecal then "handler=- fin=-" else s!"handler={s.handlerCalls} fin={fin.length}/{handed.length}"
+      s!"ret=1 early={pending.length} {hf} errs={es} foreign=0 nil=0"
+
+def nontrivial (p : Plan) : Bool :=
+  p.cascs.any fun c => c.nodes.size ≥ 3 && c.nodes.any fun n => n.rules.any (!·)
+
+def runCase (payload : String) : String :=
+  match parsePlan payload with
+  | none => "bad-payload"
+  | some p =>
+    " ; ".intercalate (p.cascs.map (expected p)) ++ (if nontrivial p then "\tnt=1" else "")
+
+/-! ### trace replay -/
+
+def nats (s : String) : List Nat := (s.splitOn ".").map fun x => x.toNat?.getD 9999
+
+def chk (b : Bool) (msg : String) : Except String Unit := if b then .ok () else .error msg
+
+def stepE (s : State) (e : Event) : Except String State :=
+  match step s e with
+  | some s' => .ok s'
+  | none => .error s!"event not enabled in the model: {repr e}"
+
+def replayTok (c : Casc) (s : State) (tok : String) : Except String State := do
+  let kind := tok.toList.headD ' '
+  let a := nats (tok.drop 1).toString
+  let phaseOf (m : Nat) : Option Phase := (s.mons[m]?).map (·.phase)
+  match kind, a with
+  | 'W', _ => stepE s .register
+  | 'R', [n] => do
+    let s' ← stepE s .waitReturns
+    chk (n == (allErrors s').length) s!"AllErrors after the return: model {(allErrors s').length} entries, code {n}"
+    pure s'
+  | 'P', _ => stepE s .post
+  | 'D', _ => stepE s .dropQueue
+  | 'O', _ =>
+    if tok == "Ow" then stepE s (.observerRuns .wait)
+    else if tok == "Oh" then stepE s (.observerRuns .handler)
+    else stepE s (.observerRuns .queue)
+  | 'A', [m, n] =>
+    match addEv c m n with
+    | .addEvent m true rs => stepE s (.addEvent m true rs)
+    | _ => .error "a task was queued for an event the plan calls non-triggering"
+  | 'C', [p, m, u] => do
+    chk (m == s.mons.length) "child id out of creation order"
+    let s' ← stepE s (.newChild p)
+    chk (s'.unfinished == u) s!"unfinished after NewChildMonitor: model {s'.unfinished}, code {u}"
+    pure s'
+  | 'B', [m, w] => stepE s (.pop w m)
+  | 'G', [m] => do
+    chk (match phaseOf m with | some (.running _) => true | _ => false) "Task.Run of a monitor which is not running"
+    pure s
+  | 'E', [m, k, ok] => do
+    chk (((s.mons[m]?).bind (·.todo.head?)) == some k) s!"action {k} returned but is not the head of the trigger sequence"
+    stepE s (.ruleReturns m (ok == 1))
+  | 'N', [m, nerr] => do
+    match s.mons[m]? with
+    | some mon =>
+      chk (mon.todo.isEmpty) "ProcessEvent returned with rules left"
+      chk (mon.failed.length == nerr) s!"number of errors: model {mon.failed.length}, code {nerr}"
+      if nerr > 0 then stepE s (.taskDone m) else pure s
+    | none => .error "unknown monitor"
+  | 'T', [m] => stepE s (.setErrors m)
+  | 'H', [m] => stepE s (.notified m)
+  | 'F', [m, u, _n] => do
+    let s' ← match phaseOf m with
+      | some .fresh => stepE s (.addEvent m false [])
+      | some (.running _) => stepE s (.taskDone m)
+      | some (.errSet _) => stepE s (.errFinish m)
+      | _ => .error "descendantFinished for a monitor which cannot finish"
+    chk (s'.unfinished == u) s!"unfinished after Finish: model {s'.unfinished}, code {u}"
+    chk ((s'.mons[m]?).map (·.phase.finished) == some true) "monitor not finished after Finish"
+    pure s'
+  | 'U', [_m, b] => do
+    chk (b == 0 || s.postPending ≥ 1) "descendantFinished saw zero but the model did not"
+    pure s
+  | 'X', [n] => do
+    let s' ← stepE s .allErrors
+    chk (n ≤ (s.mons.filter fun m => !m.failed.isEmpty).length) "AllErrors returned more entries than failed tasks"
+    pure s'
+  | _, _ => .error "unknown token"
+
+def replayCasc (p : Plan) (c : Casc) (trace : String) : Except String Nat := do
+  let toks := if trace.trimAscii.toString.isEmpty then [] else trace.trimAscii.toString.splitOn ","
+  let mut s := init p.workers p.failFirst
+  let mut k := 0
+  for t in toks do
+    match replayTok c s t with
+    | .ok s' => s := s'
+    | .error e => throw s!"{k} {t} {e}"
+    k := k + 1
+  -- end of the recorded run: the cascade is over
+  chk (s.posted == 1) "finished message not posted exactly once at the end of the trace"
+  chk (s.mons.all fun m => m.phase.finished) "unfinished monitor at the end of the trace"
+  chk (!c.wait || s.waitReturned) "wait did not return in the trace"
+  chk (!s.panicked) "model assertion failed"
+  pure k
+
+def replayCase (payload : String) : String :=
+  match payload.splitOn " ~ " with
+  | [pl, trs] =>
+    match parsePlan pl with
+    | none => "bad-payload"
+    | some p =>
+      let traces := trs.splitOn " ; "
+      if traces.length != p.cascs.length then "bad-trace-count"
+      else
+        let rs := (p.cascs.zip traces).zipIdx.map fun ((c, t), i) =>
+          match replayCasc p c t with
+          | .ok n => (i, n, "")
+          | .error e => (i, 0, e)
+        match rs.find? (fun (_, _, e) => e != "") with
+        | some (i, _, e) => s!"reject {i} {e}"
+        | none => s!"ok {rs.foldl (fun acc (_, n, _) => acc + n) 0}"
+  | _ => "bad-payload"
+
+def run (args : List String) : IO Unit :=
+  match args with
+  | ["replay"] => lineLoop replayCase
+  | _ => lineLoop runCase
+
 end Ecal.Drv.C02
